@@ -46,9 +46,6 @@ func crashRestart(x *Exec) error {
 }
 
 func TestC04Seq(t *testing.T) {
-	if EnvInt("VERIF_SHARD", 0) == 0 {
-		probeKF3()
-	}
 	rapid.Check(t, func(t *rapid.T) {
 		x, cc := newSeqCase(t, "C04", 6000, 0)
 		defer func() { x.S.Stop() }()
